@@ -23,10 +23,10 @@ Prelude == "VI = 1; VD = 2.5; VS = \"s\"; VB = true; VT = tab(2, 1); VU = tup(1,
            \o "function FO(X) return undefined is begin return X; end;\nNAN = sqrt(-1); INF = 1e308 * 10;"
 Kinds == << "null", "bool()", "int()", "num()", "str()", "raw()", "tup()", "tab()",
             "0", "1", "(-1)", "255", "256", "4294967296", "9223372036854775807", "(-9223372036854775807-1)",
-            "0.5", "(-0.0)", "2.5", "1e308", "NAN", "INF", "(-INF)",
+            "0.5", "(-0.5)", "0.999", "1e-9", "(-0.0)", "2.5", "1e308", "NAN", "INF", "(-INF)",
             "\"\"", "\"a\"", "\"12\"", "\"  12abc\"", "\"0x1F\"", "\"1e5\"", "\"aaaaaaaaaaaaaaaaaaaaaaaaaaaaaaaaaaaaaaaaaaaaaaaaaaaaaaaaaaaaaaaaaaaaaaaaaaaaaaaa\"",
             "true", "raw(\"ab\")", "VZ", "tab(1, 1)", "tab(0, 1)", "tab(2, \"a\")", "VTT", "VTU", "tup(1, \"a\")", "tup(2.5, true, raw())", "ii", "VT.at(0)", "VU@2" >>
-Core == << "null", "int()", "num()", "str()", "0", "(-1)", "9223372036854775807", "(-9223372036854775807-1)", "2.5", "NAN", "\"a\"", "\"\"", "raw(\"ab\")", "tab(1, 1)", "true", "FO(1)", "FO(\"s\")", "FO(null)" >>
+Core == << "null", "int()", "num()", "str()", "0", "(-1)", "9223372036854775807", "(-9223372036854775807-1)", "2.5", "0.5", "(-0.5)", "NAN", "\"a\"", "\"\"", "raw(\"ab\")", "tab(1, 1)", "true", "FO(1)", "FO(\"s\")", "FO(null)" >>
 F0 == << "null", "true", "false", "on", "off", "pi", "ee", "phi", "ii", "error", "random()", "bool()", "int()", "num()", "str()", "raw()", "tup()", "tab()" >>
 F1 == << "abs", "acos", "asin", "atan", "b64dec", "b64enc", "bool", "ceil", "chr", "cos", "cosh", "exp", "floor", "getenv", "getsys", "hash", "hex", "iconj", "imag",
          "int", "iphase", "isnull", "isnum", "log10", "log", "lower", "ltrim", "num", "random", "raw", "round", "rtrim", "sign", "sin", "sinh", "sqrt",
